@@ -155,6 +155,7 @@ type Exec struct {
 	pureDepth     int
 	pureFork      int
 	onceDone      map[*Value]bool
+	panicking     *targetPanic
 	domains       map[*Term][]uint64 // finite over-approximations of single variables' feasible values
 	ipdomCache    map[*ssa.Function]map[*ssa.BasicBlock]*ssa.BasicBlock
 }
@@ -622,6 +623,7 @@ func (e *Exec) runPath(fn *ssa.Function, prefix []int64) (res *PathResult) {
 	e.pooled = nil
 	e.pureDepth, e.pureFork = 0, 0
 	e.onceDone = nil
+	e.panicking = nil
 	e.domains = map[*Term][]uint64{}
 	res = e.cur
 	e.sol.Push()
